@@ -47,6 +47,77 @@ def gen_chunk(rng):
     return ks, orders, script
 
 
+def gen_single_candidate_chunk(rng):
+    """a gapped chunk with exactly one (or no) resting order inside its range - often inside a gap between two minutes - and reactions that
+    place orders far outside"""
+    step = 0.5
+    n = rng.choice([2, 3, 5])
+    ks, prev_close = [], None
+    for i in range(n):
+        o = 100.0 if prev_close is None else prev_close + rng.choice([0, -3, -2, 2, 3, 4]) * step
+        c = o + rng.randrange(-4, 5) * step
+        hi = max(o, c) + rng.choice([0, 0, 1, 2]) * step
+        lo = min(o, c) - rng.choice([0, 0, 1, 2]) * step
+        ks.append([1000.0 + i, o, c, hi, lo, 1.0])
+        prev_close = c
+    lo_all = min(min(k[4] for k in ks), min(k[2] for k in ks)); hi_all = max(max(k[3] for k in ks), max(k[2] for k in ks))
+    inside = [lo_all + j * step for j in range(int((hi_all - lo_all) / step) + 1)]
+    gaps = []
+    for i in range(1, n):
+        a, b = sorted((ks[i - 1][2], ks[i][1]))
+        gaps += [a + j * step for j in range(1, int((b - a) / step))]
+    orders = []
+    if rng.random() < 0.9:
+        orders.append((1, rng.choice(gaps) if gaps and rng.random() < 0.6 else rng.choice(inside)))
+    orders += [(len(orders) + 1 + j, rng.choice([lo_all - 20, hi_all + 20, lo_all - 7.5])) for j in range(rng.choice([0, 1, 2]))]
+    script = {}
+    if orders and rng.random() < 0.7:
+        script[orders[0][0]] = ([i for i, _ in orders[1:] if rng.random() < 0.3], [(50 + j, rng.choice([lo_all - 30, hi_all + 30])) for j in range(rng.choice([1, 2]))])
+    return ks, orders, script
+
+
+def real_step_chunk(ks, orders, script):
+    """the normal simulator's matching of the same minutes: gap normalisation, then _simulate_price_change_effect per minute"""
+    from . import driver as D
+    C.use_repo()
+    import numpy as np
+    from jesse.strategies import Strategy
+    from jesse.store import store
+    import jesse.modes.backtest_mode as bm
+    fills, tag2o = [], {}
+    cur = [0]
+
+    class Scr(Strategy):
+        def should_long(self): return False
+        def go_long(self): pass
+        def _on_updated_position(self, order):
+            t = getattr(order, '_tag', None)
+            fills.append((t, cur[0]))
+            if t in script:
+                cancels, news = script[t]
+                for i in cancels:
+                    if i in tag2o: tag2o[i].cancel()
+                for (i, p) in news:
+                    o = D.submit('BTC-USDT', 'buy', 'LIMIT', 1.0, p); o._tag = i; tag2o[i] = o
+    D.session(typ='futures', balance=1e9, strategy_cls=Scr)
+    for (i, p) in orders:
+        o = D.submit('BTC-USDT', 'buy', 'LIMIT', 1.0, p); o._tag = i; tag2o[i] = o
+    arr = np.array(ks, dtype=float)
+    t0 = store.app.time
+    for i in range(len(arr)):
+        arr[i][0] = t0 + i * 60000
+    for i in range(len(arr)):
+        cur[0] = i
+        c = arr[i]
+        if i != 0:
+            c = bm._get_fixed_jumped_candle(arr[i - 1], c)
+        store.app.time = c[0] + 60000
+        store.candles.add_candle(c, 'Sandbox', 'BTC-USDT', '1m', with_execution=False, with_generation=False)
+        bm._simulate_price_change_effect(c, 'Sandbox', 'BTC-USDT')
+    left = [o._tag for o in store.orders.get_active_orders('Sandbox', 'BTC-USDT') if o.is_active]
+    return fills, left
+
+
 def real_chunk(ks, orders, script):
     from . import driver as D
     C.use_repo()
@@ -88,3 +159,136 @@ def real_chunk(ks, orders, script):
         bm._update_all_routes_a_partial_candle = orig
     left = [o._tag for o in store.orders.get_active_orders('Sandbox', 'BTC-USDT') if o.is_active]
     return [[float(x) for x in r] for r in arr], fills, parts, left
+
+
+TFM = {'1m': 1, '3m': 3, '5m': 5, '15m': 15, '30m': 30, '45m': 45, '1h': 60}
+
+
+def hypothesis_holds(out, tf):
+    """single-symbol session in which the NORMAL run never fills two resting orders inside one trading-candle span, and nobody is liquidated"""
+    from . import engine as E
+    if out.get('liquidations'):
+        return False
+    spans = {}
+    for e in out['trace']:
+        if e['k'] == 'execute' and e['was'] == 'ACTIVE' and e['type'] in ('LIMIT', 'STOP'):
+            sp = int((e['t'] - 60000 - E.T0) // (TFM[tf] * 60000))
+            spans[sp] = spans.get(sp, 0) + 1
+    return all(v <= 1 for v in spans.values())
+
+
+def summary(out):
+    ex = [(e['type'], e['qty'], e['price'], e['t']) for e in out['trace'] if e['k'] == 'execute' and e['was'] == 'ACTIVE']
+    sub = {e['id']: e for e in out['trace'] if e['k'] == 'submit'}
+    ex_full = [(sub[e['id']]['side'],) + (e['type'], e['qty'], e['price'], e['t']) for e in out['trace'] if e['k'] == 'execute' and e['was'] == 'ACTIVE' and e['id'] in sub]
+    tr = [(t['type'], t['qty'], t['entry'], t['exit'], t['pnl'], t['opened_at'], t['closed_at']) for t in out.get('trades', [])]
+    return {'executed': ex_full, 'trades': tr, 'final': out.get('final')}
+
+
+def run(tier, seed, replay=None):
+    from . import engine as E
+    res = C.Result(PID, tier, seed)
+    res.trusted = ['Coq 8.16.1 kernel + vm_compute', 'translator py2v + simidx (fail-closed, outputs validated by c01/kernels)',
+                   'Model/Match.v and Model/FastMatch.v hand-written, tied by correspondence (c02, c12)', 'harness/c12.py, engine.py, driver.py']
+    res.assumptions = ['theorem (iii) is about one chunk with at most one resting order inside its range and a strategy layer whose reaction to a fill does not read the '
+                       'partial candle and places nothing inside the chunk (the property\'s "exits spaced wider than a trading candle can move"); whole sessions are '
+                       'covered by the differential search', 'single symbol, no liquidation, as the property says']
+    from translator import gen_all
+    ok, msgs = gen_all.generate()
+    res.oblige('translator regenerated kernels, read lists, execution tests and chunk length from /repo', ok, '\n'.join(msgs))
+    C.standard_proof_step(res, 'Props.C12', ['C12_same_range', 'C12_same_candidates', 'C12_step_divides_every_timeframe', 'C12_windows_coincide', 'C12_no_window_inside_chunk',
+                                             'C12_executions_coincide', 'C12_no_execution_inside_chunk', 'C12_single_candidate_chunk'],
+                          ['theories/Props/C12.vo', 'theories/Run/C12Run.vo'])
+    rng = C.rng_for(seed, PID)
+    hdr = ('From Coq Require Import ZArith QArith Qcanon List Bool Arith PrimFloat.\nFrom JV Require Import Base.Num Model.Match Run.Harness Run.KernelRun Run.C02Run Run.C12Run.\n'
+           'Import ListNotations.\n')
+    cases, cerr = [], []
+    for _ in range(150 if tier == 'quick' else 2500):
+        ks, orders, script = gen_chunk(rng)
+        try:
+            arr, fills, parts, left = real_chunk(ks, orders, script)
+            cases.append((arr, orders, script, fills, parts, left))
+        except Exception as ex:
+            cerr.append({'candles': ks, 'orders': orders, 'script': script, 'error': type(ex).__name__ + ': ' + str(ex)[:200]})
+
+    def term(m):
+        arr, orders, script, fills, parts, left = m
+        sc = C.clist([f"({C.cnat(t)}, ({C.clist([C.cnat(i) for i in cn])}, {C.clist([f'({C.cnat(i)}, {qq(p)})' for i, p in nw])}))" for t, (cn, nw) in sorted(script.items())])
+        return (f"({C.clist([cndq(k) for k in arr])}, {C.clist([f'({C.cnat(i)}, {qq(p)})' for i, p in orders])}, {sc}, {C.clist([f'({C.cnat(i)}, {C.cnat(mi)})' for i, mi in fills])}, "
+                f"{C.clist([cndq(p) for p in parts])}, {C.clist([C.cnat(i) for i in left])})")
+    jobs = []
+    for j in range(0, len(cases), 100):
+        body = ';\n'.join(term(c) for c in cases[j:j + 100])
+        jobs.append((f'c12_c_{j // 100}', j, hdr + f'Definition cs : list chunk_case := [\n{body}\n].\nEval vm_compute in (bad_indices (map chunk_agrees cs)).\n'))
+    outs = C.coq_eval_many([(j[0], j[2]) for j in jobs], timeout=1500)
+    bad, errs = [], []
+    for j, (rc, o) in zip(jobs, outs):
+        r = C.parse_results(o)
+        if rc != 0 or len(r) != 1:
+            errs.append(o[-600:]); continue
+        bad += [cases[j[1] + i] for i in C.parse_nat_list(r[0])]
+    # the property on one chunk, on the real code: the real fast matcher vs the real normal matcher minute by minute, on chunks with a single candidate
+    chunk_diffs, n_single = [], 0
+    for _ in range(120 if tier == 'quick' else 1500):
+        ks, orders, script = gen_single_candidate_chunk(rng)
+        try:
+            arr, ffills, _, fleft = real_chunk(ks, orders, script)
+            sfills, sleft = real_step_chunk(ks, orders, script)
+        except Exception as ex:
+            cerr.append({'candles': ks, 'orders': orders, 'script': script, 'error': type(ex).__name__ + ': ' + str(ex)[:200]}); continue
+        n_single += 1
+        if ffills != sfills or sorted(fleft) != sorted(sleft):
+            chunk_diffs.append({'chunk_candles': ks, 'resting_orders': orders, 'reactions': {str(k_): v for k_, v in script.items()},
+                                'fast_fills_id_minute': ffills, 'normal_fills_id_minute': sfills, 'fast_left': fleft, 'normal_left': sleft})
+    res.oblige('C12 case files evaluated', not errs, '\n'.join(errs[:3]))
+    res.oblige('scripted chunks ran on the real fast matcher', not cerr, json.dumps(cerr[:2], default=str)[:600])
+    res.oblige('correspondence: Model/FastMatch.fast_chunk with scripted reactions = _simulate_price_change_effect_multiple_candles (fills with minute, partial candles, orders left)',
+               not bad, json.dumps(bad[:2], default=str)[:900])
+    # differential search
+    pairs = 30 if tier == 'quick' else 400
+    diffs, sess_err, compared, skipped, n_exec = [], [], 0, 0, 0
+    for k in range(pairs):
+        sc = E.gen_script(rng, rng.randrange(1 << 30))
+        sc.update({'digest': False, 'points': 1, 'exit_points': 1, 'modify': 'none', 'liquidate_every': 0, 'sl_dist': rng.choice([40, 60, 90]), 'tp_dist': rng.choice([40, 60, 90]),
+                   'exit_style': rng.choice(['on_open', 'at_entry']), 'entry_every': rng.choice([3, 5, 7]), 'cancel_entry': rng.choice(['always', 'sometimes'])})
+        tf = rng.choice(['3m', '5m', '15m', '30m'])
+        data = rng.choice([[], [('BTC-USDT', '1h')], [('BTC-USDT', '15m')], [('BTC-USDT', '30m')], [('BTC-USDT', '5m')], [('BTC-USDT', '45m')]])
+        data = [d for d in data if TFM[d[1]] > TFM[tf]]                      # larger than the trading timeframe, not necessarily a multiple of it
+        sc['view_dependent'] = rng.random() < 0.6
+        FIXED = [('3m', ['5m']), ('30m', ['45m']), ('5m', ['15m']), ('15m', ['1h']), ('3m', ['15m']), ('15m', ['45m'])]
+        if k < 2 * len(FIXED):                     # every run covers the timeframe pairs whose gcd differs from the trading timeframe
+            tf = FIXED[k % len(FIXED)][0]; data = [('BTC-USDT', t_) for t_ in FIXED[k % len(FIXED)][1]]; sc['view_dependent'] = True
+        sc['offs'] = rng.choice([[0], [-2, -1, 1, 2], [1, 2], [-1, -2]])           # resting entries close to the price: gaps inside a chunk matter
+        cs = E.gen_candles(rng, rng.choice([240, 360]), style=rng.choice(['flat', 'flat', 'walk', 'trend']))
+        typ = rng.choice(['futures', 'futures', 'spot'])
+        if typ == 'spot': sc['side'] = 'long'
+        kw = dict(exchange_type=typ, leverage=rng.choice([1, 2]), fee=rng.choice([0.0, 0.001]))
+        a = E.run_session({'BTC-USDT': cs}, [('BTC-USDT', tf)], data_routes=data, scripts={'BTC-USDT': sc}, fast=False, with_vids=True, **kw)
+        if a['error']:
+            if not E.benign_error(a['error']): sess_err.append({'error': a['error'], 'simulator': 'normal', 'script': sc, 'timeframe': tf, **kw})
+            skipped += 1; continue
+        if not hypothesis_holds(a, tf):
+            skipped += 1; continue
+        b = E.run_session({'BTC-USDT': cs}, [('BTC-USDT', tf)], data_routes=data, scripts={'BTC-USDT': sc}, fast=True, with_vids=True, **kw)
+        compared += 1
+        sa, sb = summary(a), summary(b)
+        n_exec += len(sa['executed'])
+        if b['error'] or sa != sb:
+            what = next((key for key in ('executed', 'trades', 'final') if sa[key] != sb[key]), 'error')
+            diffs.append({'differs_in': what, 'fast_error': b['error'], 'timeframe': tf, 'data_routes': data, 'script': sc, 'normal': sa, 'fast': sb, 'candles': cs, **kw})
+    res.oblige('sessions ran without an engine error in the normal simulator', not sess_err, json.dumps(sess_err[:2], default=str)[:600])
+    res.add_cases(len(cases) + compared, len({json.dumps(c, default=str) for c in cases}) + compared, [],
+                  f'{len(cases)} scripted chunks of 2..5 gapped minutes with 0..6 resting orders and reactions on the real fast matcher; {pairs} single-symbol sessions '
+                  f'(trading 3m..30m, optional larger data route, spot/futures, wide exits, calm candles) of which {compared} satisfied the hypothesis in the normal run '
+                  f'and were compared with the fast run ({skipped} skipped)')
+    res.extra.update({'executed_orders_compared': n_exec, 'scripted_chunks': len(cases), 'chunk_fills': sum(len(c[3]) for c in cases), 'session_pairs': pairs, 'pairs_compared': compared, 'pairs_outside_hypothesis': skipped})
+    res.extra['single_candidate_chunks_compared_on_real_code'] = n_single
+    if chunk_diffs:
+        res.violation('fast_chunk_differs_from_normal_minutes', 'a chunk with a single candidate order is matched differently by the real fast and normal matchers', chunk_diffs[0])
+    seen = set()
+    for d in diffs:
+        site = f"fast_differs_from_normal:{d['differs_in']}"
+        if site in seen: continue
+        seen.add(site)
+        res.violation(site, 'the fast simulator does not reproduce the normal simulation of a session that satisfies the hypothesis', d)
+    return res.finish()
